@@ -433,9 +433,9 @@ SYSTEMS = [
     C18('c18.closure.VI-G', ('VI', 'G'), 2, 3, None, None, pipes=False),
     C18('c18.closure.VO-G', ('VO', 'G'), 2, 3, None, None, pipes=False),
     # two-unit universes, 3 streams, variable lists capped at 3: BFS towards closure (thorough), depth 3 (quick)
-    C18('c18.pair.F-VI', ('F', 'VI'), 3, 3, 3, None, pipes=False, state_cap=1_500_000, tcap_t=1500),
-    C18('c18.pair.F-VO', ('F', 'VO'), 3, 3, 3, None, pipes=False, state_cap=1_500_000, tcap_t=1500),
-    C18('c18.pair.VI-VO', ('VI', 'VO'), 3, 3, 3, None, pipes=False, state_cap=1_500_000, tcap_t=1500),
+    C18('c18.pair.F-VI', ('F', 'VI'), 3, 3, 3, None, pipes=False, state_cap=1_500_000, tcap_t=200),
+    C18('c18.pair.F-VO', ('F', 'VO'), 3, 3, 3, None, pipes=False, state_cap=1_500_000, tcap_t=200),
+    C18('c18.pair.VI-VO', ('VI', 'VO'), 3, 3, 3, None, pipes=False, state_cap=1_500_000, tcap_t=200),
     # the universe of the property: three units, five streams, depth-bounded, all operations incl. pipe notation
     # and Connection.reconnect of an earlier snapshot
     C18('c18.depth.F-VI-VO', ('F', 'VI', 'VO'), 5, 4, 2, 3, snapshots=True),
